@@ -890,7 +890,7 @@ def named_jobs(pending, fjobs, fres, rng, quick):
     return two + three, live, population
 
 
-QUICK_NAMED3 = 20000
+QUICK_NAMED3 = 12000
 QUICK_NAMED_WIDE = 6000
 QUICK_ARITY3 = 40000
 
